@@ -231,3 +231,89 @@ Proof.
   unfold construct_fields in *. cbn [map wf_attrs]. destruct (construct_fld g) as [n x]. cbn [fst snd] in *. subst n.
   rewrite String.eqb_refl, A. cbn [andb]. now apply IH.
 Qed.
+
+(* ---------------------------------------------------------------------------------------------- *)
+(* NONE / EXPLICIT / AUTO: bottom-up instantiation rebuilds the default instance / the constructor's  *)
+(* ---------------------------------------------------------------------------------------------- *)
+Lemma wf_fld_nest n opt cn cfs nd :
+  wf_fld (FNest n opt cn cfs nd) = true ->
+  forallb wf_fld cfs = true /\ NoDup (map fname cfs)
+  /\ match nd with DFac => True | DNone => opt = true | DInst i => wf_inst cn cfs i = true end.
+Proof.
+  cbn [wf_fld]. intros W. apply andb_true_iff in W as [W Wd]. apply andb_true_iff in W as [Wc Wn].
+  repeat split; auto; [now apply str_nodupb_NoDup | destruct nd; auto].
+Qed.
+
+Lemma is_inst_not_vnone D : is_inst D -> is_vnone D = false.
+Proof. intros [cn [vals ->]]. reflexivity. Qed.
+
+Section Plain.
+  Variable g0 : guard_kind.
+  Variable cached : bool.
+
+  Definition wdof (has_wd : bool) (D : vt) : option vt := if has_wd then Some D else None.
+
+  Lemma leaf_default_inst has_wd n d fac D :
+    is_inst D -> leaf_default order_std cached n d fac (wdof has_wd D) [D] = as_value (attr D n).
+  Proof.
+    intros I. destruct has_wd; cbn [wdof].
+    - now apply default_from_wrapper_default.
+    - now apply default_from_parent_default.
+  Qed.
+
+  (* under an Optional member that is None, every leaf argument equals its default: the member comes back None *)
+  Lemma leaves_at_default_none cfs :
+    forallb wf_fld cfs = true ->
+    leaves_at_default order_std cached cfs (map (run_fld g0 order_std cached None [vnone]) cfs) None [vnone] = true.
+  Proof.
+    induction cfs as [|g r IH]; intros W; [reflexivity|].
+    cbn [forallb] in W. apply andb_true_iff in W as [Wg Wr]. destruct g as [n t d fac|n opt cn cfs nd].
+    - cbn [map run_fld leaves_at_default]. rewrite default_under_none.
+      cbn [wf_fld] in Wg. apply andb_true_iff in Wg as [C T]. rewrite (postprocess_default_id t d C T).
+      cbn [vt_eqb]. rewrite value_eqb_refl. cbn [andb]. now apply IH.
+    - cbn [map leaves_at_default]. destruct (run_fld g0 order_std cached None [vnone] (FNest n opt cn cfs nd)). now apply IH.
+  Qed.
+
+  Lemma guard_none_vnone : guard_none g0 None [vnone] = true.
+  Proof. destruct g0; reflexivity. Qed.
+
+  (* a wrapper whose default list holds the instance D (handed down from the caller: has_wd, or from a member's default factory) *)
+  Lemma run_fld_inst : forall g has_wd D x,
+    is_inst D -> wf_fld g = true -> wf_inst_fld g x = true -> attr D (fname g) = x ->
+    shape3_free_fld g0 has_wd (Some D) g = true ->
+    run_fld g0 order_std cached (wdof has_wd D) [D] g = (fname g, x).
+  Proof.
+    induction g as [n t d fac|n opt cn cfs nd IH] using fld_ind'; intros has_wd D x I W WI A S3.
+    - cbn [run_fld fname] in *. rewrite (leaf_default_inst has_wd n d fac D I), A.
+      cbn [wf_inst_fld] in WI. destruct x as [v|]; [|discriminate]. cbn [as_value].
+      cbn [wf_fld] in W. apply andb_true_iff in W as [C _]. now rewrite (postprocess_default_id t v C WI).
+    - destruct (wf_fld_nest _ _ _ _ _ W) as [Wc [ND _]].
+      cbn [fname] in A. cbn [run_fld fname].
+      assert (CD : child_default (wdof has_wd D) n = if has_wd then some_inst x else None)
+        by (destruct has_wd; cbn [wdof child_default]; [now rewrite A | reflexivity]).
+      rewrite CD. destruct x as [v|c vals].
+      + (* the member is None in D *)
+        cbn [wf_inst_fld] in WI. destruct v; try discriminate. subst opt.
+        assert (E : (if has_wd then some_inst (VL VNone) else None) = None) by (destruct has_wd; reflexivity).
+        rewrite E. cbn [child_defaults map]. rewrite (is_inst_not_vnone D I), A.
+        change (VL VNone) with vnone. rewrite guard_none_vnone, (leaves_at_default_none cfs Wc). reflexivity.
+      + rewrite wf_inst_fld_nest in WI. apply andb_true_iff in WI as [Ec WA]. apply String.eqb_eq in Ec. subst c.
+        cbn [shape3_free_fld] in S3. rewrite A in S3. cbn [some_inst is_vnone] in S3.
+        apply andb_true_iff in S3 as [S3a S3c].
+        assert (IX : is_inst (VD cn vals)) by (now exists cn, vals).
+        assert (V : forall hw, hw = has_wd ->
+                  map (run_fld g0 order_std cached (wdof hw (VD cn vals)) [VD cn vals]) cfs = vals).
+        { intros hw ->. apply map_pointwise; [now apply wf_attrs_length|].
+          intros g [m y] Hin. destruct (attr_at cn cfs vals g m y WA ND Hin) as [At [-> Wy]].
+          apply (Forall_combine_l _ _ _ _ _ IH Hin); auto.
+          - rewrite forallb_forall in Wc. apply Wc. now apply in_combine_l in Hin.
+          - rewrite forallb_forall in S3c. apply S3c. now apply in_combine_l in Hin. }
+        destruct has_wd.
+        * cbn [some_inst is_vnone child_defaults]. change (Some (VD cn vals)) with (wdof true (VD cn vals)).
+          rewrite (V true eq_refl). cbn [wdof guard_none]. now rewrite andb_false_r.
+        * cbn [child_defaults map]. rewrite (is_inst_not_vnone D I), A.
+          change (@None vt) with (wdof false (VD cn vals)). rewrite (V false eq_refl). cbn [wdof].
+          cbn [orb] in S3a. apply orb_true_iff in S3a as [O|G].
+          -- apply negb_true_iff in O. subst opt. reflexivity.
+          -- destruct g0; [discriminate|]. cbn [guard_none forallb is_vnone]. now rewrite andb_false_r.
+  Qed.
